@@ -18,7 +18,7 @@ LEVEL = "exploration"
 RULE = (
     "(a) every ordered pair of shell types (l0,kind0)x(l1,kind1), Cartesian l=0..L and pure l=2..L (L=4 quick, 7 thorough) x 4 "
     "geometries x 3 exponent pairs, one- and two-basis calls [exhaustive]; (b) random bases (1-5 centres incl. coincident, 1-6 "
-    "primitives, exponents 1e-2..1e5, generalized contractions, random conventions with sign flips); (c) rejection of unsupported "
+    "primitives in any order, exponents 1e-2..1e5, generalized contractions, random conventions with sign flips); (c) rejection of unsupported "
     "input; (d) every entry of the Cartesian-to-pure tables l<=7 [exhaustive]; (e) the 1-D kernel for all n1,n2<=7 on random real "
     "arguments vs mpmath / Gauss-Hermite and once on sympy symbols. distinct = distinct (part, shell-type pair / shell-type set, "
     "geometry class); non-trivial = at least one matrix element above 1e-12 compared."
@@ -99,7 +99,7 @@ def case_pair(case):
     ncmp = ncall = 0
     conv = gto.default_conventions(9)
     rng = gb.rng_for(6, l0, ord(k0), l1, ord(k1))
-    for geom in GEOMS:
+    for geom, order in itertools.product(GEOMS, ("desc", "asc")):
         for a, b in EXPPAIRS:
             if geom == "coincident":
                 xyz = np.array([[0.1, -0.2, 0.3], [0.1, -0.2, 0.3]])
@@ -111,13 +111,17 @@ def case_pair(case):
                 mu = a * b / (a + b)
                 d = math.sqrt(36.0 / mu)
                 xyz = np.array([[0.0, 0.0, 0.0], [d * 0.6, -d * 0.64, d * 0.48]])
-            sh0 = gb.make_shell(0, [l0], [k0], [a, a * 0.31], [[0.7], [0.4]])
+            # primitives listed in decreasing and in increasing exponent order (the statement fixes no order)
+            if order == "desc":
+                sh0 = gb.make_shell(0, [l0], [k0], [a, a * 0.31], [[0.7], [0.4]])
+            else:
+                sh0 = gb.make_shell(0, [l0], [k0], [a * 0.31, a], [[0.4], [0.7]])
             sh1 = gb.make_shell(1, [l1], [k1], [b], [[1.0]])
             # one basis (both shells) ...
             basis = gb.make_basis([sh0, sh1], conv)
             S = compute_overlap(basis, xyz)
             R, A, T = gto.overlap_exact(basis, xyz, with_bound=True)
-            v, n = compare(S, R, A, T, f"one-basis {l0}{k0}|{l1}{k1} {geom} exps=({a},{b})")
+            v, n = compare(S, R, A, T, f"one-basis {l0}{k0}|{l1}{k1} {geom} primitives {order} exps=({a},{b})")
             viols += v
             ncmp += S.size
             ncall += 1
@@ -128,7 +132,7 @@ def case_pair(case):
             b1 = gb.make_basis([gb.make_shell(0, [l1], [k1], [b], [[1.0]])], conv)
             S01 = compute_overlap(b0, xyz[:1], b1, xyz[1:])
             R01, A01, T01 = gto.overlap_exact(b0, xyz[:1], b1, xyz[1:], with_bound=True)
-            v, n2 = compare(S01, R01, A01, T01, f"two-basis {l0}{k0}|{l1}{k1} {geom} exps=({a},{b})")
+            v, n2 = compare(S01, R01, A01, T01, f"two-basis {l0}{k0}|{l1}{k1} {geom} primitives {order} exps=({a},{b})")
             viols += v
             ncmp += S01.size
             ncall += 1
@@ -137,7 +141,7 @@ def case_pair(case):
             if np.abs(S10 - S01.T).max() > TOLF * EPS * A01.max() + 1e-14 + T01.max():
                 viols.append(_v("overlap-transpose", f"two-basis {l0}{k0}|{l1}{k1} {geom}: exchanging the bases does not transpose"))
             if n + n2 > 0:
-                feats.append(f"pair:{l0}{k0}|{l1}{k1}:{geom}")
+                feats.append(f"pair:{l0}{k0}|{l1}{k1}:{geom}:{order}")
     return viols, feats, {"compute_overlap_calls": ncall, "elements_compared": ncmp}, {
         "pair": f"{l0}{k0}|{l1}{k1}", "geometries": GEOMS, "exponent_pairs": EXPPAIRS}
 
@@ -157,6 +161,8 @@ def case_random(case):
         contraction = str(rng.choice(["segmented", "sp", "generalized"], p=[0.55, 0.15, 0.3]))
         sh = gb.random_shell(rng, int(rng.integers(0, natom)), lmax=lmax, contraction=contraction,
                              nprim=int(rng.integers(1, 7)), exp_range=(1e-2, 1e5))
+        if rng.random() < 0.5:
+            sh = gb.shuffle_primitives(rng, sh)
         if sum(s.nbasis for s in shells) + sh.nbasis > budget:
             if shells:
                 break
@@ -205,6 +211,7 @@ def case_random(case):
     shells2 = [gb.random_shell(rng, int(rng.integers(0, natom2)), lmax=min(lmax, 5),
                                contraction=str(rng.choice(["segmented", "generalized"])), nprim=int(rng.integers(1, 5)),
                                exp_range=(1e-2, 1e4)) for _ in range(int(rng.integers(1, 4)))]
+    shells2 = [gb.shuffle_primitives(rng, sh) if rng.random() < 0.5 else sh for sh in shells2]
     conv_b = gb.random_conventions(rng, gb.keys_of(shells2))
     basis2 = gb.make_basis(shells2, conv_b)
     S01 = compute_overlap(basis, xyz, basis2, xyz2)
